@@ -696,18 +696,24 @@ class C13(Engine):
     timeout_s = None      # step-budgeted (deterministic), no wall guard inside runs
     rule = ("seeded schedules: 2 (thorough: 2-3) real caller threads, 1-2 calls each (parse/render/parseInline/"
             "renderInline, own document and env) on one shared instance started fresh / warm / reconfigured / options "
-            "reassigned; pre-emption before any library source line (LINE) or bytecode (INSTRUCTION) per the run's switch "
-            "list (K1 single pre-emption incl. first-use windows, K2 2-4 change points, K3 random gaps, K4 fine "
-            "round-robin window); plus re-entrant calls from plugin rules / render rules. Non-trivial = a pre-emption "
-            "fired while >= 2 threads were inside a library call, or a nested re-entry fired; distinct = distinct "
+            "reassigned / aged by n earlier documents (n just below a discovered capacity limit when the tree has one); "
+            "pre-emption before any library source line (LINE) or bytecode (INSTRUCTION) per the run's switch list: K1 single "
+            "pre-emption (uniform, first-use windows, at thread 0's shared-state writes, inside writer functions), K2 2-4 "
+            "change points, K3 random gaps, K4 fine round-robin window, K5 ping-pong around both threads' writes; plus 1-3 "
+            "re-entrant calls per enclosing call from plugin rules / render rules / highlight / link hooks. Non-trivial = a "
+            "pre-emption fired while >= 2 threads were inside a library call, or a nested re-entry fired; distinct = distinct "
             "event-log digests among those.")
     assumptions = ["pre-emption only inside markdown_it frames; C code, mdurl, dataclass-generated methods and harness "
                    "callbacks are atomic", "configuration is not mutated during the concurrent phase",
-                   "CPython 3.12 sys.monitoring"]
+                   "CPython 3.12 sys.monitoring",
+                   "process-global library state (module/class-level containers, functools caches) is put back to its "
+                   "post-warm-up value before every run", "the shared-state fingerprint only biases where pre-emptions are "
+                   "placed; no verdict depends on it"]
     components = {"real": ["all of markdown_it", "mdurl", "CPython threads (threading.Thread)"],
                   "harness_supplied": ["caller threads' workloads", "re-entering pass-through plugin/render rules", "envs"],
                   "stub": [], "simulated": ["the thread scheduler: which thread runs after every library line/bytecode",
-                                            "threading.Lock/RLock as seen by library modules (scheduler-aware; unused today)"]}
+                                            "threading.Lock/RLock as seen by library modules (scheduler-aware; unused today)",
+                                            "the age of the instance (how many documents it has processed before)"]}
     expected_probes = ["aged_start_runs", "solo_calls_that_write_shared_state", "runs_with_write_directed_preemption",
                        "preemption_in_first_use_window", "overlapped_runs", "nested_reentries_fired", "nested_from_link_hook",
                        "preemptions_fired_K1", "preemptions_fired_K2", "preemptions_fired_K3", "preemptions_fired_K4",
